@@ -584,7 +584,7 @@ func Subst(s *Sym, m map[ssa.Value]*Sym) *Sym {
 // store and no field stores (a spilled parameter or call result).
 func (fi *FuncInfo) structCellValue(cell ssa.Value) ssa.Value {
 	al, ok := cell.(*ssa.Alloc)
-	if !ok {
+	if !ok || al.Heap {
 		return nil
 	}
 	switch al.Type().(*types.Pointer).Elem().Underlying().(type) {
@@ -669,7 +669,7 @@ func fieldAddrWritten(fa *ssa.FieldAddr) bool {
 // literal), each field at most once, never stored as a whole.
 func (fi *FuncInfo) structLit(cell ssa.Value, depth int) *Sym {
 	al, ok := cell.(*ssa.Alloc)
-	if !ok {
+	if !ok || al.Heap {
 		return nil
 	}
 	st, ok := al.Type().(*types.Pointer).Elem().Underlying().(*types.Struct)
